@@ -52,6 +52,11 @@ MUTATIONS = {
                                        "        if False:\n            raise IndexError(")]),
     'revert-fix4': (1, [("     else if(.not. (error_code == numerical_error_skip .and. error_control == error_control_skip)) then",
                          "     else if(error_control == error_control_raise) then")]),
+    # history: the wrapper's solve() resets the record of every period it hands over before stamping the results
+    'solve-resets-record': (1, [("        # Loop through results information and update object and return values\n",
+                                 "        for t_ in indexes:\n            self.status[t_] = '-'\n            self.iterations[t_] = -1\n\n        # Loop through results information and update object and return values\n")]),
+    # layout: the equation comment is emitted verbatim, so a line break inside it would land as bare text
+    'comment-with-newline': (1, [("        block = f'! {equation}\\n' + ", "        block = f'! {equation[:len(equation) // 2]}\\n{equation[len(equation) // 2:]}\\n' + ")]),
     # harmless: must stay exit 0
     'refactor-rename-reorder': (0, [("variables_to_numbers", "numbering"),
                                     ("    endogenous = [s.name for s in symbols if s.type == Type.ENDOGENOUS]\n    exogenous  = [s.name for s in symbols if s.type == Type.EXOGENOUS]\n",
